@@ -89,7 +89,7 @@ P('C18', theorems=['Tcs.C18_spec', 'Tcs.C18_no_id', 'Tcs.C18_noop', 'Tcs.C18_tab
   oracles=[O.o_c18, relabel(O.o_c15, 'C18: any refused request leaves every client\'s stored state exactly as it was')],
   plan={'quick': [hist('default', 220, LIBHTTP), grammar(6, 120, lists='none,one')], 'thorough': [hist('default', 4000, LIBHTTP), grammar(60, 300, lists='none,one,many')]})
 
-P('C03', theorems=['Tcs.C03_linearizable_partial', 'Tcs.C03_library_linearizable', 'Tcs.C03_linearizable_core', 'Tcs.C03_from_init', 'Tcs.C03_no_overlap_5xx', 'Tcs.C03_no_double_accept', 'Tcs.C03Ex.C03_relaxation_needed',
+P('C03', theorems=['Tcs.C03_linearizable_partial', 'Tcs.C03_library_linearizable', 'Tcs.C03_linearizable_core', 'Tcs.C03MixEx.C03_mix_not_linearizable', 'Tcs.C03_from_init', 'Tcs.C03_no_overlap_5xx', 'Tcs.C03_no_double_accept', 'Tcs.C03Ex.C03_relaxation_needed',
                    'Tcs.C03_http_run', 'Tcs.C03_http_responses', 'Tcs.C03_library_step', 'Tcs.machine_linearizable', 'Tcs.runinv_run', 'Tcs.arel_step', 'Tcs.linrel_step', 'Tcs.C03_reduction_prefix',
                    'Tcs.red_step', 'Tcs.C03_reduction', 'Tcs.C03_reduction_sublist', 'Tcs.red_init', 'Tcs.red_resp', 'Tcs.red_db'],
   module='Tcs.Props.C03Http',
